@@ -5,4 +5,4 @@ Extraction Language OCaml.
 Set Extraction Optimize.
 Extraction "model_tmpl.ml"
   N.add N.mul N.sub N.div_eucl N.compare Z.add Z.mul Z.sub Z.div_eucl Z.compare Z.of_N Z.to_N Z.opp
-  TmplModel.expand TmplModel.print_nodes TmplRender.render_ast EscapeModel.auto_of EscapeModel.list_eqb.
+  TmplModel.expand TmplModel.print_nodes TmplRender.render_ast EscapeModel.auto_of EscapeModel.list_eqb TmplModel.jv_of_numeral.
